@@ -125,7 +125,13 @@ def config_holder_extension(ck, tier, seed, only=None):
     for v in res["results"]:
         g = groups[v["group"]]
         what = v["problems"][0][0]
-        ck.violation({"clause": "config_holder_conformance", "what": what, "action": v["label"][0]},
+        kinds = {pr[0] for pr in v["problems"]}
+        # C16 states that deriving a world never mutates its inputs: isolation failures (shared objects, a changed class default, a
+        # caller's or owner's later edit reaching the instance) are violations of it; the merge / replace semantics themselves are
+        # specification extension
+        relevant = bool(kinds & {"aliasing", "clsdef", "second_instance"}) or v["label"][0] in ("ExtMutate", "OwnerMutate")
+        report = ck.violation if relevant else ck.extension
+        report({"clause": "config_holder_conformance", "what": what, "action": v["label"][0]},
                      "ConfigHolder (%s, %s holder): after %s the real object and ConfigHolder.tla disagree on %s: %s (history: %s)" % (
                          g["name"], v["kind"], v["label"], what, v["problems"][0][1][:300], [x[0] for x in v["prefix"]]),
                      {"kind": "config_holder", "group": {k: g[k] for k in ("name", "has_default", "store_info", "with_owner", "keys")}, "behaviour": g["behaviours"][v["behaviour"]] if v["behaviour"] < len(g["behaviours"]) else None, "problems": v["problems"]})
